@@ -10,6 +10,7 @@ import (
 	"sort"
 	"strconv"
 	"strings"
+	"time"
 )
 
 // gen collects the operation lines of one correspondence run, executes each on the real library as it
@@ -27,6 +28,8 @@ type gen struct {
 	predEvals  int
 	thorough   bool
 	lastLine   string
+	out        string // output directory (for incremental findings)
+	t0         time.Time
 	quiet      bool // execute ops on the implementation only (not sent to the model): used where the Lean run would be too slow
 }
 
@@ -90,9 +93,29 @@ func (g *gen) check(ok bool, kind, detail string, ops ...string) {
 	if !ok {
 		g.counts["predfail:"+kind]++
 		if len(g.findings) < 50 {
-			g.findings = append(g.findings, finding{g.prop, kind, detail, ops})
+			f := finding{g.prop, kind, detail, ops}
+			g.findings = append(g.findings, f)
+			// also append it to <outdir>/findings.partial.jsonl at once: if the run is later cut off by the time limit
+			// (a change that makes the library very slow), the failing inputs found so far are not lost
+			if g.out != "" {
+				if fh, err := os.OpenFile(filepath.Join(g.out, "findings.partial.jsonl"), os.O_APPEND|os.O_CREATE|os.O_WRONLY, 0o644); err == nil {
+					b, _ := json.Marshal(f)
+					fh.Write(append(b, '\n'))
+					fh.Close()
+				}
+			}
 		}
 	}
+}
+
+// stopEarly: failing inputs have already been found and the run has become slow (a change that makes the library
+// very slow): the remaining phases are skipped rather than run into the time limit.
+func (g *gen) stopEarly() bool {
+	if len(g.findings) > 0 && time.Since(g.t0) > 90*time.Second {
+		g.counts["stopped-early"] = 1
+		return true
+	}
+	return false
 }
 
 func okval(out string) (string, bool) {
@@ -130,7 +153,9 @@ func genMain(args []string) {
 		os.Exit(2)
 	}
 	g := &gen{prop: prop, tier: tier, seed: seed, rng: rand.New(rand.NewSource(seed*7919 + int64(len(prop)))), st: newState(),
-		counts: map[string]int{}, distinct: map[string]bool{}, thorough: tier == "thorough" || tier == "search"}
+		counts: map[string]int{}, distinct: map[string]bool{}, thorough: tier == "thorough" || tier == "search", out: out, t0: time.Now()}
+	os.MkdirAll(out, 0o755)
+	os.Remove(filepath.Join(out, "findings.partial.jsonl"))
 	f(g)
 	for _, m := range g.st.mutations {
 		g.check(false, "input-mutated", "a call modified one of its input buffers: "+trunc(m, 200), m)
